@@ -287,6 +287,9 @@ fn path_json<K: Kit>(p: &[K::S]) -> Value {
 }
 
 fn replay_json<K: Kit>(prop: &str, tier: &str, idx: usize, sc: &Scenario, seq: &[u8], call: usize, path: Option<&[K::S]>, extra: Value) -> Value {
+    if let Some(d) = crate::props_deep::current() {
+        return json!({"kind": "deep", "prop": prop, "tier": tier, "deep": d, "call": call, "scenario": sc.json(), "path": path.map(|p| path_json::<K>(p)), "detail": extra});
+    }
     json!({
         "kind": "paths", "prop": prop, "tier": tier, "scenario_index": idx, "seq": seq, "call": call, "split": crate::explore::SPLIT.with(|s| s.get()),
         "scenario": sc.json(), "path": path.map(|p| path_json::<K>(p)), "detail": extra,
@@ -373,7 +376,7 @@ fn short(msg: &str) -> String {
 }
 
 #[allow(clippy::too_many_arguments)]
-fn c01<K: Kit>(tier: &str, idx: usize, sc: &Scenario, seq: &[u8], ci: usize, rig: &Rig<K>, path: &[K::S], start_ok: bool, rep: &mut Report) {
+pub(crate) fn c01<K: Kit>(tier: &str, idx: usize, sc: &Scenario, seq: &[u8], ci: usize, rig: &Rig<K>, path: &[K::S], start_ok: bool, rep: &mut Report) {
     let pk = sc.params.pk;
     if !start_ok {
         rep.violate(format!("C01|{}|ok-path-from-invalid-start", pk.name()), "a path was returned although the checker rejects the start state".to_string(), || {
@@ -425,7 +428,7 @@ fn c02<K: Kit>(tier: &str, idx: usize, sc: &Scenario, seq: &[u8], ci: usize, rig
 }
 
 #[allow(clippy::too_many_arguments)]
-fn c03<K: Kit>(tier: &str, idx: usize, sc: &Scenario, seq: &[u8], ci: usize, rig: &Rig<K>, path: &[K::S], rep: &mut Report) {
+pub(crate) fn c03<K: Kit>(tier: &str, idx: usize, sc: &Scenario, seq: &[u8], ci: usize, rig: &Rig<K>, path: &[K::S], rep: &mut Report) {
     let pk = sc.params.pk;
     let log = rig.world.log.borrow();
     for i in 0..path.len().saturating_sub(1) {
@@ -458,7 +461,7 @@ fn c03<K: Kit>(tier: &str, idx: usize, sc: &Scenario, seq: &[u8], ci: usize, rig
 }
 
 #[allow(clippy::too_many_arguments)]
-fn c04<K: Kit>(tier: &str, idx: usize, sc: &Scenario, seq: &[u8], ci: usize, rig: &Rig<K>, path: &[K::S], rep: &mut Report) {
+pub(crate) fn c04<K: Kit>(tier: &str, idx: usize, sc: &Scenario, seq: &[u8], ci: usize, rig: &Rig<K>, path: &[K::S], rep: &mut Report) {
     let pk = sc.params.pk;
     for (i, s) in path.iter().enumerate() {
         rep.count("path_states_checked", 1);
@@ -502,7 +505,7 @@ pub fn bounds_class(spec: &Spec) -> String {
 }
 
 #[allow(clippy::too_many_arguments)]
-fn c05<K: Kit>(tier: &str, idx: usize, sc: &Scenario, seq: &[u8], ci: usize, rig: &Rig<K>, path: &[K::S], rep: &mut Report) {
+pub(crate) fn c05<K: Kit>(tier: &str, idx: usize, sc: &Scenario, seq: &[u8], ci: usize, rig: &Rig<K>, path: &[K::S], rep: &mut Report) {
     let pk = sc.params.pk;
     let limit = sc.params.edge_limit();
     let tau = step_tau(sc.kit);
@@ -576,8 +579,13 @@ pub fn run(prop: &'static str, tier: &'static str) -> i32 {
             "samplers, validity checker, goal and clock are the harness's scripted seams (DESIGN 1.2); goal bias 0 so the RNG cannot influence behaviour".into(),
             "values outside the alphabets are not explored".into(),
         ],
-        must_be_positive: vec!["paths_returned"],
+        must_be_positive: if prop == "C02" { vec!["paths_returned"] } else { vec!["paths_returned", "deep_runs", "deep_paths"] },
     };
+    // supplementary: deep seeded executions judged by the same oracle (C02's endpoints are covered by
+    // the call-history exploration instead)
+    if prop != "C02" {
+        rep.merge(crate::props_deep::run(prop, tier));
+    }
     // every path oracle compares implementation behaviour with a ground-truth prediction
     let pr = rep.get("paths_returned");
     rep.count("traces_validated", pr);
